@@ -53,3 +53,9 @@ Theorem c14_p2s_map_is_orbit_minima N tp :
   valid_tp N tp = true -> indep_scan (length tp) N (act tp) = indep_atoms (length tp) N (act tp).
 Proof. exact (indep_scan_t N tp). Qed.
 Print Assumptions c14_p2s_map_is_orbit_minima.
+
+(** Hand-modelled code this property's model and correspondences were written against is unchanged (the permutation search and the representation classes):
+    whole-function match against the recorded source, regenerated on every run. *)
+From SymfcG Require Import ShapesSpg.
+Theorem c14_recorded_sources_in_force : ShapesSpg_as_recorded = true.
+Proof. repeat split; reflexivity. Qed.
